@@ -10,9 +10,8 @@ def run(ctx):
     chk = ctx.chk
     ctx.level = 'model_checking'
     ctx.explanation = ('Kani/CBMC bounded model checking of the real encoders (and decoders for the round trips) with all coordinate limbs / bytes symbolic')
+    # the re-encoding direction (encode(decode(bytes)) = bytes) lives in the decoder harnesses registered under c05 as well
     K.run_harnesses(ctx, 'c05')
-    # the re-encoding direction lives in the decoder harnesses
-    K.run_harnesses(ctx, 'c04')
     K.report_failures(ctx, 'encoding')
     chk.assumptions += ['stubs as in C04: Fq::mul_assign / square no-ops, into_repr identity (so Ord for Fq is integer order; Ord for Fq2 and negate are the real code), '
                         'sqrt oracle returns either root of the encoded y', 'y != 0 (no 2-torsion on these curves)']
